@@ -441,6 +441,24 @@ theorem suffix_real_patch_bytes_roundtrip (z : Zlib) (lz : z.Lawful) (buf : Opti
   exact suffix_patch_bytes_roundtrip z lz buf (mkCx old new (searchSA sa)) wf (search_in_bounds sa old new hsa)
     hold bytes h
 
+/-- WHOLE-PATCH round trip of `build()` under EVERY configured `max_diff_block_size` (the
+"all max_diff_block_size values" of the property for the suffix builder): `build_optimized_patch`
+does not read the setting (`suffixBlk`, tied to the source by `ZbsdiffTie.optimized_builder_tie` and
+by the `build suffixb <blk>` lines of the run with blk in {0,1,2,3,4,7,8,16,32,…} on diff runs that
+are exact multiples of blk), so the patch is the one of `suffix_real_patch_bytes_roundtrip`. -/
+theorem suffix_any_block_size_patch_bytes_roundtrip (z : Zlib) (lz : z.Lawful) (buf : Option Nat) (maxBlk : Nat)
+    (sa : Array Nat) (old new bytes : Bytes) (hsa : ∀ x ∈ sa, x ≤ old.length) (hold : old.length < 2 ^ 63)
+    (h : buildBytes z (suffixBlk maxBlk sa old new) = .ok bytes) : applyPatchBytes z buf old bytes = .ok new :=
+  suffix_real_patch_bytes_roundtrip z lz buf sa old new bytes hsa hold h
+
+/-- non-vacuous: with block size 2 the suffix builder returns patch bytes for a pair whose diff
+run (4 bytes) is an exact multiple of the block size and is followed by a deletion (TEST of one
+input, kernel evaluation). -/
+example : ((buildBytes storeZ (suffixBlk 2 #[0, 1, 2, 3, 4, 5, 6, 7, 8, 9, 10, 11] [1, 2, 3, 4, 5, 6, 7, 8, 9, 10, 11, 12]
+      [1, 2, 3, 4, 9, 10, 11, 12])).toOption.bind fun b =>
+      (applyPatchBytes storeZ none [1, 2, 3, 4, 5, 6, 7, 8, 9, 10, 11, 12] b).toOption) = some [1, 2, 3, 4, 9, 10, 11, 12] := by
+  decide +kernel
+
 /-- the hypotheses of the whole-patch theorems are satisfiable by non-trivial instances: a lawful
 zlib that changes its input, and all three builders returning patch bytes for a pair with a shared
 middle part (kernel evaluation; the last line also re-applies the chunked patch: TEST of one input). -/
